@@ -101,6 +101,9 @@ def gen_conditions(rng, n=None, cyclic_ok=True):
                 {"Fn::Equals": [{"Ref": rng.choice(["Env", "AWS::Region", "Flag"])}, rng.choice(["prod", "eu-west-1", "true", "TRUE"])]},
                 {"Fn::Equals": [{"Ref": "CacheEnabled"}, rng.choice(["true", "false", "True", True])]},
                 {"Fn::Equals": [{"Fn::ImportValue": "shared-replicas"}, rng.choice(["0", "1", "1.5", 1])]},
+                # equality of objects is equality of their members, whatever the order they are written in
+                {"Fn::Equals": [{"team": "data", "stage": {"Ref": "Env"}}, rng.choice([{"stage": "prod", "team": "data"}, {"team": "data", "stage": "prod"}, {"stage": "dev", "team": "data"}])]},
+                {"Fn::Equals": [["a", {"Ref": "Env"}], rng.choice([["a", "prod"], ["prod", "a"]])]},
             ])
         else:
             d = ref()
@@ -138,6 +141,11 @@ def gen_resources(rng, cond_names, n=None, max_depth=3):
         else:
             st = {"Effect": "Allow", "Action": ["s3:GetObject"], "Resource": [g.str_expr(2), {"Fn::Sub": "arn:aws:s3:::${Name}/*"}]}
             r = {"Type": "AWS::IAM::ManagedPolicy", "Properties": {"PolicyDocument": {"Version": "2012-10-17", "Statement": [st]}, "ManagedPolicyName": g.str_expr(1)}}
+        if rng.random() < 0.25:
+            r["DeletionPolicy"] = rng.choice(["Retain", {"Fn::If": ["IsProd", "Retain", "Delete"]}, {"Ref": "Env"}])
+            r["UpdateReplacePolicy"] = rng.choice(["Delete", {"Fn::Sub": "${Env}"}])
+            r["DependsOn"] = rng.choice(["R0", ["R0", {"Ref": "Name"}], {"Fn::If": ["IsDev", "R0", {"Ref": "AWS::NoValue"}]}])
+            r["Metadata"] = {"Note": {"Fn::Join": ["-", ["a", {"Ref": "Env"}]]}, "List": [{"Ref": "Env"}]}
         c = rng.random()
         if c < 0.4 and cond_names:
             r["Condition"] = rng.choice(cond_names)
